@@ -14,6 +14,7 @@ type fstate struct {
 	exists   bool
 	v        int
 	mt       int64
+	realMt   int64 // the last real (non-zero) mtime the file had: deltas of writes are relative to it
 	maxMt    int64 // highest mtime the file ever had
 	blocked  bool  // opening / stat'ing the file fails with a permission error (memfs.FailOpen)
 	lastDt0  bool  // the most recent write kept the mtime and changed the content
@@ -55,7 +56,9 @@ func newView() *view {
 
 func conflicts(set map[held]bool, mt int64, v int) bool {
 	for h := range set {
-		if h.mt == mt && h.v != v {
+		// a file whose CURRENT mtime is zero ("unknown") cannot be validated at all: any other
+		// content the engine may hold is indistinguishable
+		if (mt == 0 || h.mt == mt) && h.v != v {
 			return true
 		}
 	}
@@ -67,6 +70,7 @@ type model struct {
 	views [2]*view // 0: the NewFS root template's engine, 1: the stand-alone Vue
 
 	store string               // "" or storeOverlayMixed
+	proc  string               // the engine option (procLess makes vars.less a dependency)
 	armed map[string]armedEdit // file -> edit that fires while (or right after) the next render depending on the file runs
 
 	step      int            // index of the op being applied (set by the caller)
@@ -84,6 +88,7 @@ func viewIndex(entry string) int {
 // armedEdit is a scripted edit that overlaps a load (see Op "arm").
 type armedEdit struct {
 	v, dt, idx int
+	zero       bool
 }
 
 const storeOverlayMixed = "overlay-mixed"
@@ -119,9 +124,12 @@ func newModel(c Case) (*model, error) {
 		return nil, fmt.Errorf("harness: unknown store %q", c.Store)
 	}
 	m := &model{st: map[string]*fstate{}, views: [2]*view{newView(), newView()}, lastWrite: map[string]int{}, freshDt: map[string]int{},
-		store: c.Store, armed: map[string]armedEdit{}}
+		store: c.Store, proc: c.Proc, armed: map[string]armedEdit{}}
 	for _, f := range allFiles {
-		m.st[f] = &fstate{mt: t0, maxMt: t0}
+		m.st[f] = &fstate{mt: t0, realMt: t0, maxMt: t0}
+		if c.ZeroInit {
+			m.st[f].mt = 0
+		}
 		m.lastWrite[f] = -1
 	}
 	names := make([]string, 0, len(init))
@@ -151,18 +159,21 @@ func getVariant(file string, v int) (variant, error) {
 
 // newMtime is the mtime a write with delta dt gives the file (never below 1 s).
 func (m *model) newMtime(file string, dt int) int64 {
-	mt := m.st[file].mt + int64(dt)
+	mt := m.st[file].realMt + int64(dt)
 	if mt < 1 {
-		mt = 1 // zero mtime means "unknown" to the cache: excluded
+		mt = 1 // a zero mtime ("unknown") is only produced on purpose, by Op.Z
 	}
 	return mt
 }
 
 // write applies a write op and returns labels describing it.
-func (m *model) write(file string, v, dt int) (kind, mtClass string) {
+func (m *model) write(file string, v, dt int, zero bool) (kind, mtClass string) {
 	f := m.st[file]
 	vr := variants[file][v]
 	mt := m.newMtime(file, dt)
+	if zero {
+		mt = 0
+	}
 	kind = "edit"
 	if !f.exists {
 		kind = "recreate"
@@ -171,6 +182,12 @@ func (m *model) write(file string, v, dt int) (kind, mtClass string) {
 		kind = "make-invalid"
 	}
 	switch {
+	case mt == 0 && f.mt == 0:
+		mtClass = "mtime:zero-to-zero"
+	case mt == 0:
+		mtClass = "mtime:real-to-zero"
+	case f.mt == 0:
+		mtClass = "mtime:zero-to-real"
 	case mt > f.mt:
 		mtClass = "mtime:advance"
 	case mt == f.mt:
@@ -179,10 +196,13 @@ func (m *model) write(file string, v, dt int) (kind, mtClass string) {
 		mtClass = "mtime:backwards"
 	}
 	m.lastWrite[file] = m.step
-	m.freshDt[file] = int(f.maxMt + 1 - f.mt)
+	m.freshDt[file] = int(f.maxMt + 1 - f.realMt)
 	changed := !f.exists || f.v != v
 	f.lastDt0 = mt == f.mt && changed
 	f.exists, f.v, f.mt = true, v, mt
+	if mt != 0 {
+		f.realMt = mt
+	}
 	if mt > f.maxMt {
 		f.maxMt = mt
 	}
@@ -219,7 +239,7 @@ func (m *model) apply(i int, op Op) ([]string, error) {
 		if _, err := getVariant(op.File, op.V); err != nil {
 			return nil, err
 		}
-		kind, mtClass := m.write(op.File, op.V, op.Dt)
+		kind, mtClass := m.write(op.File, op.V, op.Dt, op.Z)
 		return []string{"op:" + kind + ":" + op.File, mtClass}, nil
 	case op.Op == "delete":
 		m.remove(op.File)
@@ -228,7 +248,7 @@ func (m *model) apply(i int, op Op) ([]string, error) {
 		if _, err := getVariant(op.File, op.V); err != nil {
 			return nil, err
 		}
-		m.armed[op.File] = armedEdit{op.V, op.Dt, i}
+		m.armed[op.File] = armedEdit{op.V, op.Dt, i, op.Z}
 		return []string{"op:arm-edit-overlapping-a-load:" + op.File}, nil
 	case op.Op == "block":
 		f := m.st[op.File]
@@ -268,7 +288,7 @@ func (m *model) fire(f string) (pre preState) {
 	pre = preState{h: held{mt, v}, existed: ex, loadable: ex && variants[f][v].LoadOK}
 	step := m.step
 	m.step = a.idx // for the known-finding bookkeeping the arm op is the write
-	m.write(f, a.v, a.dt)
+	m.write(f, a.v, a.dt, a.zero)
 	m.step = step
 	return pre
 }
@@ -300,11 +320,20 @@ func (m *model) closure(entry, target string) []string {
 	if tv.Include {
 		add(fComp)
 	}
+	if tv.Less && m.proc == procLess {
+		add(fLess) // @import-ed by the style block the LESS processor compiles on every render
+	}
 	if entry == eVueRender || entry == eVueFrag {
 		return out
 	}
 	switch tv.Layout {
 	case "main":
+		// a layout next to the page wins over layouts/ (template_layout.go resolveLayoutPath):
+		// the probe is part of the render either way
+		add(fRel)
+		if _, ok := m.cur(fRel); ok {
+			break
+		}
 		add(fMain)
 		if mv, ok := m.cur(fMain); ok && mv.LoadOK {
 			if mv.Include {
@@ -342,6 +371,12 @@ func (m *model) expectOK(entry, target string) bool {
 	needBase := false
 	switch tv.Layout {
 	case "main":
+		if _, there := m.cur(fRel); there {
+			if _, k := ok(fRel); !k {
+				return false
+			}
+			break
+		}
 		mv, k := ok(fMain)
 		if !k || (mv.Include && !compOK()) {
 			return false
@@ -364,10 +399,11 @@ func (m *model) expectOK(entry, target string) bool {
 type renderInfo struct {
 	deps      []string
 	ambiguous string // a dependency whose mtime equals that of a state the engine may still hold with other content
+	viaZero   bool   // ... because its current mtime is zero (unknown)
 	viaSame   bool   // ... and that came about by a same-mtime edit (otherwise the mtime moved away and back unseen)
 	stale     string // a dependency whose mtime equals that of an older state the engine saw but must have dropped since (compared: this is the region of fixed finding C15-stale-entry-after-failed-load)
 	rer       bool   // some dependency was rendered before and modified since
-	baseStale bool   // region of known finding C15-stale-default-layout-after-existence-check: layouts/base.vuego came back with an mtime at which the NewFS engine saw other content, after the engine saw it in another state
+	baseStale string // region of known finding C15-stale-default-layout-after-existence-check: layouts/base.vuego came back with an mtime at which the NewFS engine saw other content, after the engine saw it in another state
 	uncached  string // region of known finding C15-stale-entry-after-uncached-read: the Vue.Render target came back with the mtime its cache entry has, other content, and the engine saw it in between only through paths that bypass the cache
 }
 
@@ -385,14 +421,14 @@ func (m *model) preRender(entry, target string) renderInfo {
 		}
 		if conflicts(w.may[f], emt, ev) {
 			if ri.ambiguous == "" {
-				ri.ambiguous, ri.viaSame = f, s.lastDt0
+				ri.ambiguous, ri.viaSame, ri.viaZero = f, s.lastDt0, emt == 0
 			}
 		} else if conflicts(w.ever[f], emt, ev) {
 			if ri.stale == "" {
 				ri.stale = f
 			}
-			if f == fBase && viewIndex(entry) == 0 {
-				ri.baseStale = true
+			if (f == fBase || f == fRel) && viewIndex(entry) == 0 && ri.baseStale == "" {
+				ri.baseStale = f
 			}
 		}
 	}
@@ -427,7 +463,7 @@ func (m *model) postRender(entry, target string, ri renderInfo, ok bool) {
 		ex, ev, emt := m.eff(target)
 		hit := false
 		for h := range w.cache[target] {
-			if ex && h.mt == emt {
+			if ex && (emt == 0 || h.mt == emt) {
 				hit = true
 			}
 		}
@@ -453,6 +489,9 @@ func (m *model) postRender(entry, target string, ri renderInfo, ok bool) {
 	var broken []string
 	for _, f := range ri.deps {
 		v, k := m.cur(f)
+		if f == fLess || (f == fRel && !k) {
+			continue // a missing / unreadable import or page-relative layout does not fail a render
+		}
 		if !k || !v.LoadOK || !v.RenderOK {
 			broken = append(broken, f)
 		}
@@ -465,7 +504,11 @@ func (m *model) postRender(entry, target string, ri renderInfo, ok bool) {
 		must[broken[0]] = true
 	}
 	for _, f := range ri.deps {
-		note(f, must[f])
+		// a file that currently reports no mtime teaches the engine nothing: it cannot tell
+		// whether what it holds is still good, so it may keep holding it
+		_, _, emt := m.eff(f)
+		ex, _, _ := m.eff(f)
+		note(f, must[f] && !(ex && emt == 0))
 	}
 }
 
@@ -548,8 +591,8 @@ func offendingWrite(c Case, avoid map[string]bool) (int, int, string) {
 			if avoid[findingUncached] && ri.uncached != "" && m.lastWrite[ri.uncached] >= 0 {
 				return m.lastWrite[ri.uncached], m.freshDt[ri.uncached], findingUncached
 			}
-			if avoid[findingBase] && ri.baseStale && ri.ambiguous == "" && m.lastWrite[fBase] >= 0 {
-				return m.lastWrite[fBase], m.freshDt[fBase], findingBase
+			if avoid[findingBase] && ri.baseStale != "" && ri.ambiguous == "" && m.lastWrite[ri.baseStale] >= 0 {
+				return m.lastWrite[ri.baseStale], m.freshDt[ri.baseStale], findingBase
 			}
 			m.postRender(op.Entry, target, ri, m.expectOK(op.Entry, target))
 		}
@@ -571,8 +614,8 @@ func sanitize(c Case, avoid map[string]bool) (Case, []string) {
 			break
 		}
 		ops := append([]Op(nil), c.Ops...)
-		ops[idx].Dt = dt
-		c = Case{Init: c.Init, Ops: ops, Proc: c.Proc, Store: c.Store}
+		ops[idx].Dt, ops[idx].Z = dt, false
+		c = Case{Init: c.Init, Ops: ops, Proc: c.Proc, Store: c.Store, ZeroInit: c.ZeroInit}
 		n = append(n, id)
 	}
 	return c, n
